@@ -396,6 +396,12 @@ def compare(case, impl, model):
     W = window_steps(case['window'], impl['T'], impl['pts'], case['scn']['grid'].get('tz'))
     if W is not None and set(model['steps']) != W:
         dis.append('window in original steps: model %s, expected %s' % (sorted(set(model['steps'])), sorted(W)))
+    if W is not None:
+        # the model's pinned variables per interval (through original steps) against the real split mapping
+        for k, (a, o) in enumerate(zip(mi, offs)):
+            real = {j for j in range(len(ri[k]['l'])) if impl['var_steps'].get(o + j, set()) & W}
+            if set(a['fixed']) != real:
+                dis.append('interval %d: pinned variables: model %s, by the real split mapping %s' % (k, sorted(set(a['fixed'])), sorted(real)))
     if W is not None and not model['valid']:
         dis.append('model calls a well-formed window invalid')
     return dis
